@@ -1,7 +1,11 @@
 package c01
 
 import (
+	"regexp"
+	"unicode/utf8"
+
 	"fmt"
+	"github.com/gofiber/fiber/v3/middleware/rewrite"
 	"net/url"
 	"strconv"
 	"strings"
@@ -87,6 +91,12 @@ func mkHandlers(hs []H, trace *[]string) []fiber.Handler {
 			case "method":
 				c.Method(h.Arg)
 				return c.Next()
+			case "rewrite":
+				// the bundled rewrite middleware with one rule: the request's own path (as it was sent) -> Arg
+				if !utf8.ValidString(rewriteFrom) {
+					return c.Next() // (a rule is a regular expression: it cannot spell a path that is not UTF-8)
+				}
+				return rewrite.New(rewrite.Config{Rules: map[string]string{"^" + regexp.QuoteMeta(rewriteFrom): h.Arg}})(c)
 			}
 			return c.SendString(h.ID)
 		})
@@ -350,6 +360,16 @@ func simulate(c Case, fl []flat, from int, method, path string, endpoint bool, e
 			case "path":
 				path = h.Arg
 				e.overridden = "path"
+			case "rewrite":
+				// applies if the path the handler sees is (still) the request's own; then it is a path override like any other
+				seen := path
+				if c.Unesc {
+					seen = pctDecode(seen)
+				}
+				if seen == c.Path && utf8.ValidString(c.Path) {
+					path = h.Arg
+					e.overridden = "path"
+				}
 			case "method":
 				e.overridden = "method"
 				if anyCursor && h.Arg != method && (depth < 3 || pruneTo != nil && depth < 12) {
@@ -395,7 +415,11 @@ type observed struct {
 	allow  string
 }
 
+// rewriteFrom is the request path of the case being run (the rule of the "rewrite" act is built from it)
+var rewriteFrom string
+
 func run(c Case) observed {
+	rewriteFrom = c.Path
 	var trace []string
 	app := newApp(c)
 	if c.Late > 0 && c.Late <= len(c.Regs) {
@@ -539,6 +563,9 @@ func (g *gen) handlers(maxN int, allowOverride bool) []H {
 			case "path":
 				if allowOverride {
 					h.Act, h.Arg = "path", rapid.SampledFrom(g.reqs).Draw(g.t, "newpath")
+					if rapid.IntRange(0, 2).Draw(g.t, "viarewrite") == 0 {
+						h.Act = "rewrite" // the same override made by the bundled rewrite middleware
+					}
 				}
 			case "method":
 				if allowOverride {
@@ -723,7 +750,7 @@ func sanitize(c *Case) (dropped int) {
 			}
 			for j := range g.H {
 				h := &g.H[j]
-				if h.Act != "path" && h.Act != "method" {
+				if h.Act != "path" && h.Act != "method" && h.Act != "rewrite" {
 					continue
 				}
 				if count[key{g.Kind == "use", norm(full)}] > 1 || j != len(g.H)-1 {
